@@ -15,12 +15,14 @@ from __future__ import annotations
 import itertools
 import z3
 
+_UNSET = object()
+IMP_CAP = 64
 _intern: dict = {}
 _counter = itertools.count(1)
 
 
 class B:
-    __slots__ = ("kind", "args", "id", "payload", "grp", "_z", "sz", "defn", "gset", "__weakref__")
+    __slots__ = ("kind", "args", "id", "payload", "grp", "_z", "sz", "defn", "gset", "_imp", "__weakref__")
 
     def __init__(self, kind, args=(), payload=None, grp=None):
         self.kind = kind  # 'T','F','v','n','a','o'
@@ -33,6 +35,7 @@ class B:
         for a in args:
             sz += a.sz
         self.sz = sz if sz < 100000 else 100000
+        self._imp = _UNSET
         self.defn = None  # for definitional variables: the formula they name
         self.gset = None  # for disjunctions of positive members of one one-hot group: (group, frozenset(ids))
         if kind == "o":
@@ -108,6 +111,116 @@ def atom(zexpr) -> B:
     n = B("v", (), payload=zexpr)
     _atoms[k] = (n, zexpr)
     return n
+
+
+def imp(x: "B"):
+    """assignments that x implies (an under-approximation): dict key -> value, or None if x is contradictory.
+    Keys: ('v', id) -> bool for plain variables/atoms, ('g', group) -> member id for one-hot groups.
+    Lets AND() refute conjunctions whose operands hide their structure behind definitional variables."""
+    r = x._imp
+    if r is not _UNSET:
+        return r
+    k = x.kind
+    if k == "T":
+        r = {}
+    elif k == "F":
+        r = None
+    elif k == "v":
+        if x.defn is not None:
+            r = imp(x.defn)
+            if r is not None and len(r) < IMP_CAP:
+                r = dict(r)
+                r[("v", x.id)] = True
+        elif x.grp is not None:
+            r = {("g", x.grp): x.id}
+        else:
+            r = {("v", x.id): True}
+    elif k == "n":
+        y = x.args[0]
+        if y.kind == "v":
+            if y.defn is not None:
+                r = _imp_neg(y.defn, 3)
+                if r is not None and len(r) < IMP_CAP:
+                    r = dict(r)
+                    r[("v", y.id)] = False
+            elif y.grp is not None:
+                r = {}
+            else:
+                r = {("v", y.id): False}
+        else:
+            r = _imp_neg(y, 3)
+    elif k == "a":
+        r = {}
+        for a in x.args:
+            ia = imp(a)
+            r = _imp_join(r, ia)
+            if r is None:
+                break
+    else:  # or
+        r = _UNSET
+        for a in x.args:
+            ia = imp(a)
+            if ia is None:
+                continue  # a contradictory disjunct contributes nothing
+            r = ia if r is _UNSET else {kk: vv for kk, vv in r.items() if ia.get(kk, _UNSET) == vv}
+            if not r:
+                break
+        if r is _UNSET:
+            r = None
+    x._imp = r
+    return r
+
+
+def _imp_join(r, ia):
+    if r is None or ia is None:
+        return None
+    if not ia:
+        return r
+    if not r:
+        return ia
+    small, big = (ia, r) if len(ia) < len(r) else (r, ia)
+    for kk, vv in small.items():
+        ov = big.get(kk, _UNSET)
+        if ov is not _UNSET and ov != vv:
+            return None
+    if len(big) >= IMP_CAP:
+        return big
+    out = dict(big)
+    for kk, vv in small.items():
+        if len(out) >= IMP_CAP:
+            break
+        out[kk] = vv
+    return out
+
+
+def _imp_neg(y, depth):
+    """what NOT(y) implies"""
+    if depth == 0:
+        return {}
+    if y.kind == "o":
+        r = {}
+        for a in y.args:
+            r = _imp_join(r, imp(NOT(a)) if a.kind in ("v", "n") else _imp_neg(a, depth - 1))
+            if r is None:
+                return None
+        return r
+    if y.kind == "a":
+        r = _UNSET
+        for a in y.args:
+            ia = imp(NOT(a)) if a.kind in ("v", "n") else _imp_neg(a, depth - 1)
+            if ia is None:
+                continue
+            r = ia if r is _UNSET else {kk: vv for kk, vv in r.items() if ia.get(kk, _UNSET) == vv}
+            if not r:
+                break
+        return {} if r is _UNSET else r
+    if y.kind == "n":
+        return imp(y.args[0])
+    if y.kind == "v":
+        return imp(NOT(y))
+    if y.kind == "T":
+        return None
+    return {}
 
 
 def NOT(x: B) -> B:
@@ -224,7 +337,16 @@ def AND(*xs) -> B:
                 items.pop(d)
             if len(items) == 1:
                 return next(iter(items.values()))
-    return _mk("a", items.values())
+    # implied-assignment summaries refute conjunctions that are contradictory behind definitional variables
+    acc = {}
+    for x in items.values():
+        acc = _imp_join(acc, imp(x))
+        if acc is None:
+            return FALSE
+    n = _mk("a", items.values())
+    if n._imp is _UNSET:
+        n._imp = acc
+    return n
 
 
 def OR(*xs) -> B:
